@@ -109,9 +109,9 @@ package db
 //@   ensures @trtextdb bd.baseDb.pfx != 0 && result0.Translation != nil && bd.baseDb.lang != nil ==> str(result0.Translation[1:]) == old(skey(bd, key)) + langSuffix(bd.baseDb.lang)
 //@   ensures @trtextctx bd.baseDb.pfx != 0 && result0.Translation != nil && bd.baseDb.lang == nil ==> str(result0.Translation[1:]) == old(skey(bd, key)) + ite(ctxLangCode(ctx) != "", "_" + ctxLangCode(ctx), "")
 //@   ensures @notrans bd.baseDb.pfx != 0 && (!translatable(bd.baseDb.pfx) || (bd.baseDb.lang == nil && !ctxHasLang(ctx))) ==> result0.Translation == nil
-//@   ensures[C10,C18] @dblang bd.baseDb.pfx != 0 && translatable(bd.baseDb.pfx) && bd.baseDb.lang != nil ==> result0.Translation != nil
+//@   ensures @dblang bd.baseDb.pfx != 0 && translatable(bd.baseDb.pfx) && bd.baseDb.lang != nil ==> result0.Translation != nil
 //@     && str(result0.Translation) == chr(bd.baseDb.pfx) + old(skey(bd, key)) + langSuffix(bd.baseDb.lang)
-//@   ensures[C10,C18] @ctxlang bd.baseDb.pfx != 0 && translatable(bd.baseDb.pfx) && bd.baseDb.lang == nil && ctxHasLang(ctx) ==> result0.Translation != nil
+//@   ensures @ctxlang bd.baseDb.pfx != 0 && translatable(bd.baseDb.pfx) && bd.baseDb.lang == nil && ctxHasLang(ctx) ==> result0.Translation != nil
 //@     && str(result0.Translation) == chr(bd.baseDb.pfx) + old(skey(bd, key)) + ite(ctxLangCode(ctx) != "", "_" + ctxLangCode(ctx), "")
 
 // not-found errors are recognisable (C10); IsNotFound inspects the message text (assumed)
